@@ -29,20 +29,20 @@ Require Import RV.Model.C50_Encaps RV.Proof.C50_Encaps.
 Open Scope N_scope.
 
 Theorem C50_drop_only_own : forall h a n,
-  drop_check h a n = Admitted ->
+  drop_check h a n = Granted ->
   exists info, lookup h n = Some (TObject info) /\ DropRight a info.
 Proof. exact drop_only_own. Qed.
 
 (* forbidden drops of objects get exactly InvalidDropAccess *)
 Theorem C50_drop_denied_is_invalid_drop_access : forall h a n info,
   lookup h n = Some (TObject info) ->
-  drop_check h a n = Admitted \/ drop_check h a n = EInvalidDropAccess.
+  drop_check h a n = Granted \/ drop_check h a n = EInvalidDropAccess.
 Proof. exact drop_denied_is_invalid_drop_access. Qed.
 
 (* globalize: the reservation must be a real reservation whose phantom names exactly the object's
    blueprint, the object is not yet global, and the actor runs code of that blueprint's PACKAGE *)
 Theorem C50_globalize_only_own : forall h a n r m,
-  globalize_check h a n r m = Admitted ->
+  globalize_check h a n r m = Granted ->
   exists addr reserved info,
     lookup h r = Some (TReservation addr) /\ lookup h addr = Some (TPhantom reserved) /\
     lookup h n = Some (TObject info) /\ oi_global info = false /\
@@ -53,7 +53,7 @@ Proof. exact globalize_only_own. Qed.
    globalizes an object of blueprint (7, 8) of the same package *)
 Theorem C50_globalize_blueprint_level_refuted :
   exists h a n r info,
-    globalize_check h a n r true = Admitted /\ lookup h n = Some (TObject info) /\
+    globalize_check h a n r true = Granted /\ lookup h n = Some (TObject info) /\
     actor_bp a <> Some (oi_bp info).
 Proof.
   exists [(1, TObject (mkOI (mkBp 7 8) ONone false)); (2, TReservation 3); (3, TPhantom (mkBp 7 8))],
@@ -99,7 +99,7 @@ Proof. intros. apply sys_run_inv. intros n i o H. discriminate H. Qed.
    object's own package — no other package's blueprint can drop it, whatever references it holds *)
 Theorem C50_drop_same_package : forall defs ops a n,
   let h := sys_run defs [] ops in
-  actor_consistent h a = true -> drop_check h a n = Admitted ->
+  actor_consistent h a = true -> drop_check h a n = Granted ->
   exists info, lookup h n = Some (TObject info) /\ actor_pkg a = Some (bp_pkg (oi_bp info)).
 Proof. intros defs ops a n h Hc Hd. apply drop_same_package; auto.
   apply C50_inner_objects_stay_in_outer_package. Qed.
@@ -117,8 +117,8 @@ Example C50_nonvacuous :
   lookup h 20 = Some (TObject (mkOI (mkBp 0 6) (OSome 10) false)) /\
   drop_check h (AFunction (mkBp 9 9)) 20 = EInvalidDropAccess /\
   drop_check h (AFunction (mkBp 0 6)) 20 = EInvalidDropAccess /\
-  drop_check h (AMethod MMain 21 (mkOI (mkBp 0 6) (OSome 10) false)) 20 = Admitted /\
-  drop_check h (AMethod MMain 10 rm) 20 = Admitted.
+  drop_check h (AMethod MMain 21 (mkOI (mkBp 0 6) (OSome 10) false)) 20 = Granted /\
+  drop_check h (AMethod MMain 10 rm) 20 = Granted.
 Proof. vm_compute. repeat split; reflexivity. Qed.
 
 Print Assumptions C50_drop_only_own.
